@@ -33,6 +33,9 @@ type T struct {
 	Key    *T      `json:"key,omitempty"`
 	Len    int     `json:"len,omitempty"`
 	Fields []Field `json:"fields,omitempty"`
+	// Spell (KNamed): this occurrence is written with a type alias of that name, declared next to
+	// the type (type Spell = Name). Identity, keys and the rule model do not see it.
+	Spell string `json:"spell,omitempty"`
 }
 
 // Field is a struct field.
@@ -127,12 +130,15 @@ type TypeDecl struct {
 	Consts  []Const      `json:"consts,omitempty"`
 	Methods []TypeMethod `json:"methods,omitempty"`
 	Doc     []string     `json:"doc,omitempty"`
+	// Spellings: aliases of this type declared next to it (type X = Name)
+	Spellings []string `json:"spellings,omitempty"`
 }
 
 // Const is a constant of the declaring named type.
 type Const struct {
 	Name  string `json:"name"`
-	Value string `json:"value"` // Go literal
+	Value string `json:"value"`         // Go literal
+	Via   string `json:"via,omitempty"` // declared with this alias of the type instead of its name
 }
 
 // TypeMethod is a method on a named type (used as argument-less source method).
@@ -332,7 +338,11 @@ func (r *renderer) Expr(t *T) string {
 		}
 		return t.Name
 	case KNamed:
-		s := r.qual(t.Pkg) + t.Name
+		name := t.Name
+		if t.Spell != "" {
+			name = t.Spell
+		}
+		s := r.qual(t.Pkg) + name
 		if len(t.Args) > 0 {
 			var a []string
 			for _, x := range t.Args {
@@ -466,10 +476,17 @@ func (r *renderer) typeDecl(d *TypeDecl) string {
 		eq = " = "
 	}
 	b.WriteString("type " + d.Name + tparams(d.Params) + eq + r.Expr(d.U) + "\n")
+	for _, a := range d.Spellings {
+		b.WriteString("type " + a + " = " + d.Name + "\n")
+	}
 	if len(d.Consts) > 0 {
 		b.WriteString("const (\n")
 		for _, c := range d.Consts {
-			b.WriteString(fmt.Sprintf("\t%s %s = %s\n", c.Name, d.Name, c.Value))
+			tn := d.Name
+			if c.Via != "" {
+				tn = c.Via
+			}
+			b.WriteString(fmt.Sprintf("\t%s %s = %s\n", c.Name, tn, c.Value))
 		}
 		b.WriteString(")\n")
 	}
